@@ -25,3 +25,24 @@ package flight12
 //@ ensures no-keys-before-chain: called("CipherSuite.Init!") && certSuite(state) && !old(cfg.InsecureSkipVerify) ==> calledBefore("VerifyServerCert!", "CipherSuite.Init!") && retErr("VerifyServerCert!", 1) == nil
 //@ ensures failure-has-alert: result1 != nil ==> result0 != nil && result0.Level == alert.Fatal
 //@ end
+
+//@ func handleServerKeyExchange
+//@ requires args: state != nil && cfg != nil && keyExchangeMessage != nil && state.Common != nil
+//@ ensures alert-is-fatal: result0 != nil ==> result0.Level == alert.Fatal && result1 != nil
+//@ ensures success-has-no-alert: result1 == nil ==> result0 == nil
+//@ ensures chain-untouched: sameSlice(state.PeerCertificates, old(state.PeerCertificates)) && sameRef(state.CipherSuite, old(state.CipherSuite))
+//@ end
+
+// Client, after ServerHello..ServerHelloDone: with a certificate cipher suite the handshake only moves
+// on to flight 5 if the server presented a certificate chain (RFC 5246 7.4.2); a resumed session is
+// accepted only through handleResumption (C14); a client that requires extended master secret never
+// moves on without it (C11).
+//@ func flight3Parse
+//@ watch handleResumption! ciphersuite.ForID!
+//@ requires args: state != nil && cache != nil && cfg != nil && state.Common != nil && conn != nil && cfg.Log != nil
+//@ requires suites: forall(0, len(cfg.LocalCipherSuites), func(i int) bool { return cfg.LocalCipherSuites[i] != nil })
+//@ ensures server-cert-mandatory: next == Flight5 && state.CipherSuite != nil && state.CipherSuite.AuthenticationType() == ciphersuite.AuthenticationTypeCertificate ==> typeIs(serverFlightPull.Messages[handshake.TypeCertificate], "*github.com/pion/dtls/v3/pkg/protocol/handshake.MessageCertificate")
+//@ ensures resumption-only-via-finished-check: next == Flight5b ==> called("handleResumption!") && retAs("handleResumption!", 0, Flight5b) == Flight5b && retErr("handleResumption!", 2) == nil
+//@ ensures ems-required: next == Flight5 && old(cfg.ExtendedMasterSecret) == dtlsconfig.RequireExtendedMasterSecret && called("ciphersuite.ForID!") ==> state.ExtendedMasterSecret
+//@ ensures failure-is-fatal: dtlsAlert != nil ==> dtlsAlert.Level == alert.Fatal && next == 0
+//@ end
